@@ -23,13 +23,19 @@ def _run(item):
     return dyn.run_case(case, text, _SCRATCH)
 
 
-def run_batch(ck, cases, spec_name="Dynamics", need_actions=(), run_real=True):
+def run_batch(ck, cases, spec_name="Dynamics", need_actions=(), run_real=True, ideal_invariants=False):
     """TLC on all cases, real code on all cases; returns list of (case, text, expected outputs, real)."""
     global _SCRATCH
     _SCRATCH = scratch()
     dyn.install_helper(_SCRATCH)  # once, in the parent: forked workers inherit it (no write race)
     for c in cases:
         c.setdefault("impl", 0)
+        # When a behaviour's invariants are checked while it runs a sub-behaviour under do-for/do-until/try is
+        # decided by C13 (known finding invariant-checked-inside-sub-behaviour).  The other dynamic checks run the
+        # cases that satisfy that deviation's trigger under the named as-implemented semantics (invimpl = 1), so
+        # that the finding does not mask the property they are about.
+        if not ideal_invariants and "invimpl" not in c and dyn.runs_sub_under_wrapper(c):
+            c["invimpl"] = 1
     texts = [dyn.to_scenic(c) for c in cases]
     exp = {}
     seen = set()
@@ -74,6 +80,8 @@ def main(tier):
         "terminate when / terminate simulation when / terminate after, step limit; time steps 1, 1/2, 1/4, 2",
         "conditions are pure look-ups in a step-indexed table; how often a condition is evaluated is not observed",
         "the case -> Scenic text printer (dyn.to_scenic) is trusted glue",
+        "programs in which a behaviour with invariants runs a sub-behaviour under do-for/do-until/try are run under the "
+        "named as-implemented invariant timing (Dynamics.tla invimpl = 1): that deviation is decided by C13",
     ]
     core = gen_dynamic.duration_core()
     n = 90 if tier == "quick" else 1500
